@@ -137,6 +137,27 @@ class Report:
         return status
 
 
+class MachineryFailure(RuntimeError):
+    """raised instead of exiting when machinery_failure is called in a pool worker (an exiting worker makes the pool wait for ever)"""
+
+
 def machinery_failure(pid: str, msg: str) -> "NoReturn":
+    import multiprocessing
+
     print(f"MACHINERY-FAILURE property={pid}: {msg}", file=sys.stderr, flush=True)
+    if multiprocessing.parent_process() is not None:
+        raise MachineryFailure(f"property={pid}: {msg}"[:2000])  # travels to the parent through the pool, which then exits 2
     sys.exit(2)
+
+
+def _excepthook(tp, val, tb):
+    """an uncaught exception of a check is a failure of the machinery (exit 2), never a verdict (exit 1)"""
+    import traceback
+
+    traceback.print_exception(tp, val, tb)
+    print(f"MACHINERY-FAILURE: uncaught {tp.__name__} in the check", file=sys.stderr, flush=True)
+    sys.stdout.flush()
+    os._exit(2)
+
+
+sys.excepthook = _excepthook
